@@ -3,6 +3,7 @@ CONSTANTS
   MaxHeaders = 1
   Protos = {"HTTP/1.1"}
   LowerBeforeLookup = FALSE
+  GuardOnFirstValue = FALSE
 INVARIANT Verdicts
 POSTCONDITION Accepted
 CHECK_DEADLOCK FALSE
